@@ -12,7 +12,7 @@ ASSUMPTIONS = ["oracle: the dense array itself (element-wise ==, NaN matches NaN
                "canonical form is read through the public starts / ends / values / len only",
                "'no equal adjacent values' is demanded exactly for the producers the statement lists: encoding, stepped slicing, ufuncs on two run-length operands"]
 REQUIRED_FEATURES = ["single_run", "all_different", "nan_values", "signed_zero", "producer_slice", "producer_step", "producer_binary", "producer_concat",
-                     "producer_mask", "result_needed_rejoin"]
+                     "producer_mask", "result_needed_rejoin", "producer_step_of_unjoined_operand"]
 BOUNDS = {"quick": "all arrays L<=6 (bool, int8, int64, uint8, uint64, float16/32/64; 3-letter alphabets, 4 for float32/64 at L<=5); producers over all "
                    "int64 arrays L<=4: every in-range slice with steps +-1..3, add/maximum/equal of every pair (L<=3), scalar ops, concatenate pairs, run-length masks",
           "thorough": "L<=8 (3-letter) / L<=6 (4-letter); producers L<=5"}
@@ -125,6 +125,13 @@ def _check_prod(case, acc):
                 stepped = step not in (None, 1)
                 acc.feature("producer_step" if stepped else "producer_slice")
                 _prod_check(acc, "stepped-slice" if stepped else "slice", lambda: mk()[slice(st, sp, step)], e, joined=stepped)
+    # stepped slices of an operand whose own runs are not joined (the result of a scalar ufunc keeps its operand's boundaries)
+    half = lambda: mk() // 2
+    for st, sp, step in ((None, None, 2), (None, None, -2), (1, None, 2), (None, None, 3), (None, -1, 2), (None, None, -1), (0, L, 1)):
+        e = (a // 2)[slice(st, sp, step)]
+        if len(e):
+            acc.feature("producer_step_of_unjoined_operand")
+            _prod_check(acc, "stepped-slice-of-unjoined-operand", lambda: half()[slice(st, sp, step)], e, joined=(step not in (None, 1)))
     for name, f, e in (("scalar-add", lambda: mk() + 1, a + 1), ("scalar-radd", lambda: 1 + mk(), 1 + a), ("unary-neg", lambda: -mk(), -a),
                        ("scalar-eq", lambda: mk() == 1, a == 1)):
         _prod_check(acc, name, f, e, joined=False)
